@@ -40,7 +40,11 @@ def shards(tier):
 
 
 def make_source(rng, j):
-    kind = j % 6
+    kind = j % 8
+    if kind >= 6:
+        # inside the wasm backend's subset: bytes are actually emitted (int and float temporaries mixed)
+        from ..gen import wasmsub
+        return print_module(wasmsub.WasmGen(rng, nfuncs=rng.randint(1, 5)).gen_module()), None
     if kind == 0:
         return print_module(gcore.CoreGen(rng, gcore.Cfg(max_stmts=rng.randint(3, 12))).gen_module()), None
     if kind == 1:
